@@ -63,6 +63,40 @@ theorem isolation_no_globals {V L : Type} (sys : Sys String V L)
     ∀ t, (run sys s sched).locals t = (alone sys t (sched.count t) s.shared (s.locals t)).2 :=
   Ecal.Conc.isolation sys (fun t g l x _ => hW t g l x (by simp)) s sched
 
+/-- **globals_schedule_independent** (commuting atomic steps). If moreover the lock-protected
+    updates of the shared globals are operations determined by the private part of the
+    invocation (`hU`) and operations of different invocations commute (`hcomm`: counters,
+    set insertions, writes to distinct keys), then the final value of the shared globals — and
+    the private part of every invocation — is the same for all interleavings of the same steps. -/
+theorem globals_schedule_independent {V L O : Type} (sys : Sys String V L) (low : L → O)
+    (globals : List String) (upd : Nat → O → (String → V) → (String → V))
+    (hW : WritesWithin sys (· ∈ globals))
+    (hC : Confined sys (· ∈ globals) low)
+    (hU : UpdatesBy sys low upd)
+    (hcomm : ∀ t t' o o' g, t ≠ t' → upd t o (upd t' o' g) = upd t' o' (upd t o g))
+    (s : State String V L) (sched sched' : List Nat) (hp : sched.Perm sched') :
+    (run sys s sched).shared = (run sys s sched').shared ∧
+    ∀ t, low ((run sys s sched).locals t) = low ((run sys s sched').locals t) :=
+  perm_lowEq sys (· ∈ globals) low upd hW hC hU hcomm hp s
+
+/-- non-vacuity: invocations that each add their own event id to a lock-protected global
+    counter `total` and remember the value they saw (the remembered value is the part that
+    is *not* isolated; the private part is the event id) -/
+def counterSys : Sys String Nat (Nat × Nat) :=
+  ⟨fun _ g l => (fun x => if x = "total" then g x + l.1 else g x, (l.1, g "total"))⟩
+
+example (s : State String Nat (Nat × Nat)) (sched sched' : List Nat) (hp : sched.Perm sched') :
+    (run counterSys s sched).shared = (run counterSys s sched').shared :=
+  (globals_schedule_independent counterSys (·.1) ["total"]
+    (fun _ o g x => if x = "total" then g x + o else g x)
+    (by intro t g l x hx
+        have : x ≠ "total" := by simpa using hx
+        simp [counterSys, this])
+    (by intro t g g' l l' _ hl; simpa [counterSys] using hl)
+    (by intro t g l; rfl)
+    (by intro t t' o o' g _; funext x; by_cases h : x = "total" <;> simp [h]; omega)
+    s sched sched' hp).1
+
 /-! ### The action closure of `sinkRuntime.Eval` (`Ecal.Conc.sinkSys`) -/
 
 /-- a fresh invocation for event `ev` -/
